@@ -3256,3 +3256,33 @@ def _p24(kind, kw, stage, exc, msg, desc):
 
 
 _register_known()
+
+
+def _probe_d70(ctx):
+  """Known finding D70: learned_interior keypoints whose softmax underflows to an exact 0 give a zero-length piece;
+  the layer returns NaN at that keypoint (0/0 in compute_interpolation_weights, no NaN guard)."""
+  tf, tfl = tfimpl.tfl()
+  l = tfl.layers.PWLCalibration(input_keypoints=[0., 1., 2.], input_keypoints_type="learned_interior", units=1)
+  l.build((None, 1))
+  l.interpolation_logits.assign([[0., -100.]])
+  l.kernel.assign([[0.], [1.], [1.]])
+  y = l(np.array([[2.]], "float32")).numpy().ravel()
+  if not np.all(np.isfinite(y)):
+    return "PWLCalibration([0,1,2], learned_interior) with interpolation_logits [[0,-100]] returns %r at x=2" % (y.tolist(),)
+  return None
+
+
+def _probe_d71(ctx):
+  """Known finding D71: simplex interpolation without clipping raises for an input <= -1."""
+  tf, tfl = tfimpl.tfl()
+  layer = tfl.layers.Lattice(lattice_sizes=[3], interpolation="simplex", clip_inputs=False)
+  try:
+    y = layer(tf.constant([[-1.5]])).numpy()
+  except tf.errors.InvalidArgumentError as e:
+    return "Lattice([3], interpolation='simplex', clip_inputs=False)([[-1.5]]) raises InvalidArgumentError (%s)" % (
+        str(e).split("\n")[0][:120],)
+  return None if np.all(np.isfinite(y)) else "non-finite output %r" % (y.tolist(),)
+
+
+KNOWN_PROBES = {"pwl_learned_keypoints_softmax_underflow": _probe_d70,
+                "simplex_unclipped_negative_input": _probe_d71}
